@@ -9,14 +9,14 @@ OPS = ["read 0", "read 1", "read 3", "read 100",
        "seek end -100", "seek end -12", "seek end -1", "seek end 0", "seek end 1"]
 
 
-def line_text(chrom, pad, k):
+def line_text(chrom, pad, k, ch="x"):
     s = f"{chrom}\t{k}\t{k + 1}"
     if pad:
-        s += "\t" + "x" * pad
+        s += "\t" + ch * pad
     return s
 
 
-def make_file(runs, pads, final_nl):
+def make_file(runs, pads, final_nl, ch="x"):
     """runs: list of run lengths; pads: per-line pad sizes -> (text, expected index)"""
     names = ["chrA", "chrB", "c", "chrDD", "e5"]
     lines, want, off, k = [], [], 0, 0
@@ -25,7 +25,7 @@ def make_file(runs, pads, final_nl):
         for j in range(rl):
             if j == 0:
                 want.append((len(text), names[ci]))
-            text += line_text(names[ci], pads[k], j) + "\n"
+            text += line_text(names[ci], pads[k], j, ch) + "\n"
             k += 1
     if not final_nl:
         text = text[:-1]
@@ -81,13 +81,18 @@ class C18(Prop):
                         files.append((runs, p, nl))
         if tier != "thorough":
             files = [f for i, f in enumerate(files) if len(f[0]) <= 2 or i % 3 == 0]
-        for (runs, p, nl) in files:
-            text, want = make_file(runs, p, nl)
+        # the same shapes with multi-byte UTF-8 text in the extra column: a bisection probe may land inside a character
+        files = [(r_, p_, n_, "x") for (r_, p_, n_) in files] + \
+                [(r_, [q // 2 for q in p_], n_, "é") for i, (r_, p_, n_) in enumerate(files) if max(p_) > 3 and i % 2 == 0]
+        for (runs, p, nl, ch) in files:
+            text, want = make_file(runs, p, nl, ch)
             c = CaseT(f"ix{k}", "index", [], ["TEXT " + text.encode().hex()])
             c.tags.add("index")
             c.tags.add(f"index_chroms{len(runs)}")
             if max(p) > 3:
                 c.tags.add("index_long_line")
+            if ch != "x":
+                c.tags.add("index_multibyte_text")
             if len(runs) >= 2:
                 c.tags.add("nt")
             out.append(c)
